@@ -72,6 +72,7 @@ func TestCheck(t *testing.T) {
 		})
 		if !r.Quick() {
 			// real-time variant: the same histories with real silences (few, they cost > 3 s each)
+			phaseTag = "rt"
 			r.Parallel(96, 32, func(i int, g *vkit.Rand) {
 				h := newHistory(r, g, i)
 				if h == nil {
@@ -98,6 +99,8 @@ func TestCheck(t *testing.T) {
 			"too few moves of the shards to a new server with an instance that went silent before the move")
 		r.Require(r.Counter("unknown_passes_with_refused_api_deletes")+r.Counter("timeout_passes_with_refused_api_deletes") >= 40, "too few cleanup passes during which the API refused a delete")
 		r.Require(r.Counter("upstreams_deleted_and_recreated") >= 50 && r.Counter("instances_with_identity_longer_than_63") >= 50, "too few upstream deletions / long identities")
+		r.Require(r.Counter("reinit_premise_not_met") == 0 && !bed.PremiseBroken(),
+			"a server's store held state that did not come through that server (stores shared between servers / surviving a loss of leadership: C13's clause): no verdict")
 		r.Require(r.Counter("histories") >= 100, "too few histories")
 		r.Require(r.Counter("reclaimed_with_conditions") >= 100 && r.Counter("reclaimed_with_counts") >= 100, "too few dead instances with recorded state were reclaimed")
 		r.Require(r.Counter("reclaimed_first_report_only") >= 20, "the empty-label (first report only) case was not exercised")
@@ -175,8 +178,18 @@ func (h *history) witness() map[string]interface{} {
 
 func (h *history) violate(sig, what string) {
 	h.dead = true
+	// no verdict from a history whose premise is broken: the server's stores hold only what came through this server
+	// (bed.StoreHasForeignUpstreams; that a server shares no state with another and keeps none across a loss of leadership
+	// is C13's statement)
+	if bed.StoreHasForeignUpstreams(h.srv) {
+		h.r.Count("reinit_premise_not_met", 1)
+		return
+	}
 	h.r.Violation(sig, what, h.witness())
 }
+
+// phaseTag: see newHistory - every server gets upstream names of its own (bed.StoreHasForeignUpstreams relies on it).
+var phaseTag string
 
 func newHistory(r *vkit.R, g *vkit.Rand, i int) *history {
 	h := &history{r: r, g: g, allocMax: map[string]int32{}, countMax: map[string]int32{}, cnts: map[string][]string{}, tbs: map[string]int{}}
@@ -225,9 +238,9 @@ func newHistory(r *vkit.R, g *vkit.Rand, i int) *history {
 	}
 	nu := 1 + g.Intn(2)
 	for u := 0; u < nu; u++ {
-		name := fmt.Sprintf("up%d-%d", i%11, u)
+		name := fmt.Sprintf("up%s%d-%d", phaseTag, i, u)
 		for k := 0; !h.led[util.GetShardID(name, h.srv.Shards)]; k++ { // an upstream of a shard this server leads
-			name = fmt.Sprintf("up%d-%d-%d", i%11, u, k)
+			name = fmt.Sprintf("up%s%d-%d-%d", phaseTag, i, u, k)
 		}
 		h.ups = append(h.ups, name)
 		h.allocMax[name] = g.PickI32([]int32{20, 100, 1000, 10000})
@@ -1160,7 +1173,7 @@ func returnDuringCleanup(r *vkit.R) {
 		h.srv = bed.NewLimiterServer(bed.LimiterOptions{LeadAll: true, Shards: 1 + i%3})
 		nu := g.Range(8, 16)
 		for u := 0; u < nu; u++ {
-			name := fmt.Sprintf("ov%d-%d", i%7, u)
+			name := fmt.Sprintf("ov%d-%d", i, u)
 			h.ups = append(h.ups, name)
 			h.allocMax[name] = 1000
 			c := &proxyv1alpha1.UpstreamCluster{ObjectMeta: metav1.ObjectMeta{Name: name}}
